@@ -288,6 +288,7 @@ func witnesses(c *core.Ctx) {
 	ladderWitness(c)
 	unalignedIntervalWitness(c)
 	gocWitness(c)
+	evictWitness(c)
 }
 
 // dstWitness replays Props.C13.Neg.dst_25h_day_slot_wraps on the real code with
@@ -476,10 +477,17 @@ func randomCase(c *core.Ctx, r *rand.Rand, i int) {
 		c.Branch("stream/malformed")
 		malformed(c, r)
 	default:
-		if r.Intn(3) == 0 {
+		switch r.Intn(5) {
+		case 4:
+			c.Branch("stream/shard-fixed-offset-zone")
+			zoneShardCase(c, r)
+		case 0:
 			c.Branch("stream/shard-concurrent-writers")
 			gocCase(c, r)
-		} else {
+		case 1:
+			c.Branch("stream/shard-writers-and-eviction")
+			evictCase(c, r)
+		default:
 			c.Branch("stream/shard")
 			shardCase(c, r, i)
 		}
@@ -744,6 +752,28 @@ func randomPlan(c *core.Ctx, r *rand.Rand) {
 		diff = r.Int63n(ivs[0])
 	}
 	auto := r.Intn(4) == 0
+	if r.Intn(4) == 0 {
+		// boundary region: interval equal to / a multiple of / one off a multiple of a stored interval,
+		// range of length 0, 1, storage-1, storage, interval-1, interval, interval+1, start on / one
+		// before / at the last ms of a storage slot, with and without auto group-by time
+		c.Branch("plan/boundary-region")
+		st := ivs[r.Intn(len(ivs))]
+		k := int64(1 + r.Intn(4))
+		interval = []int64{st, k * st, k*st + 1, k*st - 1, st - 1, 0}[r.Intn(6)]
+		if interval < 0 {
+			interval = 0
+		}
+		start = clampTS(start/st*st + []int64{0, -1, st - 1, 1}[r.Intn(4)])
+		iv := interval
+		if iv <= 0 {
+			iv = st
+		}
+		diff = []int64{0, 1, st - 1, st, st + 1, iv - 1, iv, iv + 1, 2*iv - 1}[r.Intn(9)]
+		if diff < 0 {
+			diff = 0
+		}
+		auto = r.Intn(2) == 0
+	}
 	if ps, pe, st, ok := opPlan(c, interval, start, start+diff, auto, ivs); ok && st > 0 && r.Intn(2) == 0 {
 		// the slot range the storage side reads for the planned range, in the families of its start and end
 		opSlotRangeOf(c, st, ps, ps, pe)
@@ -819,6 +849,24 @@ func opPlan(c *core.Ctx, interval, start, end int64, auto bool, ivs []int64) (ps
 							c.Fail("planner-contains", fmt.Sprintf("%s: slot %d of t=%d outside planned range [%d,%d]", op, tt, t, ps, pe))
 						}
 					}
+				}
+			}
+			if s > 0 && start <= end {
+				ps, pe := q.TimeRange.Start, q.TimeRange.End
+				if auto && !(pe-ps+s <= qi && pe < ps+qi) {
+					c.Fail("planner-auto-one-bucket", fmt.Sprintf("%s: auto group-by time: planned range [%d,%d] storage=%d does not fit into one bucket of the returned interval %d", op, ps, pe, s, qi))
+				}
+				if (ps == pe) != (start/s == end/s) {
+					c.Fail("planner-collapsed", fmt.Sprintf("%s: planned range [%d,%d]: collapsed=%v but the requested ends share a storage slot=%v", op, ps, pe, ps == pe, start/s == end/s))
+				}
+				if interval == s {
+					c.Branch("plan/interval==storage")
+				}
+				if start == end {
+					c.Branch("plan/point-range")
+				}
+				if interval > 0 && end-start < interval {
+					c.Branch("plan/range-shorter-than-interval")
 				}
 			}
 			if ratio > 1 {
